@@ -19,6 +19,9 @@ func c10Scenarios(tier string) []*hist.Scenario {
 		{"txt", []string{"init.t"}, []string{"t.insM", "t.delF", "t.styF"}},
 		{"cnt", []string{"init.c"}, []string{"c.inc1", "c.incmax"}},
 		{"tree", []string{"init.tr"}, []string{"tr.insT1", "tr.delP0", "tr.sty0"}},
+		// documents whose content is (or becomes again) {}: the compacted log is empty
+		{"empty", []string{"init.none"}, []string{"o.newroot"}},
+		{"emptied", []string{"init.o"}, []string{"o.delroot"}},
 	}
 	add := func(f family, op string, k, y, e, d int) {
 		out = append(out, &hist.Scenario{
